@@ -41,6 +41,10 @@ type gen struct {
 	deep    bool
 	maxIter int
 	noCalls int // >0: inside a region where calls are not generated
+	// Go leaves the order of a call relative to an indexing or a division of the
+	// same statement unspecified (gc calls first): a statement has calls or
+	// operations that may panic, never both.
+	stCall, stRisky bool
 	linear  int // >0: string expressions mention at most one string variable or call (a stored string grows by a constant)
 }
 
@@ -188,7 +192,7 @@ func (g *gen) pair(t Ty, d int) (*Expr, *Expr) {
 
 // callable functions returning t from the current function
 func (g *gen) calleesReturning(t Ty) []int {
-	if g.calls <= 0 || g.noCalls > 0 {
+	if g.calls <= 0 || g.noCalls > 0 || g.stRisky {
 		return nil
 	}
 	var c []int
@@ -205,6 +209,7 @@ func (g *gen) calleesReturning(t Ty) []int {
 
 func (g *gen) callTo(j int, d int) *Expr {
 	g.calls--
+	g.stCall = true
 	s := g.sigs[j]
 	e := &Expr{Kind: "call", Ty: s.result, X: j}
 	g.noCalls++ // arguments do not call: keeps the call tree small
@@ -309,7 +314,8 @@ func (g *gen) divisor(t Ty, d int, lConst bool) *Expr {
 		return c
 	}
 	e := g.nonConst(t, d)
-	if g.r.Intn(8) == 0 {
+	if g.r.Intn(8) == 0 && !g.stCall {
+		g.stRisky = true
 		return e // may be zero: integer divide by zero at run time
 	}
 	return &Expr{Kind: "bin", Ty: t, Op: "Or", Args: []*Expr{e, smallConst(t, 1)}}
@@ -355,6 +361,10 @@ func (g *gen) intExpr(t Ty, d int) *Expr {
 
 // index: s[i], mostly in range.
 func (g *gen) index(d int) *Expr {
+	if g.stCall {
+		return g.leaf(tUint8)
+	}
+	g.stRisky = true
 	s := g.nonConst(tStr, d)
 	var i *Expr
 	switch g.r.Intn(4) {
@@ -437,6 +447,7 @@ func (g *gen) newVar(t Ty, ro bool) int {
 }
 
 func (g *gen) decl(t Ty) *Stmt {
+	g.stCall, g.stRisky = false, false
 	g.linear++
 	e := g.expr(t, 2+g.r.Intn(2))
 	g.linear--
@@ -469,6 +480,7 @@ func (g *gen) block(n, d int) []*Stmt {
 }
 
 func (g *gen) stmt(d int) []*Stmt {
+	g.stCall, g.stRisky = false, false
 	c := g.r.Intn(100)
 	switch {
 	case c < 18:
@@ -531,7 +543,8 @@ func (g *gen) stmt(d int) []*Stmt {
 		if d <= 0 {
 			return []*Stmt{g.print()}
 		}
-		s := &Stmt{Kind: "if", E: g.boolExpr(3), A: g.block(1+g.r.Intn(3), d-1)}
+		cond := g.boolExpr(3)
+		s := &Stmt{Kind: "if", E: cond, A: g.block(1+g.r.Intn(3), d-1)}
 		if g.r.Intn(2) == 0 {
 			s.B = g.block(1+g.r.Intn(2), d-1)
 		}
@@ -556,7 +569,7 @@ func (g *gen) stmt(d int) []*Stmt {
 		return []*Stmt{g.print()}
 	case c < 88:
 		// a call as a statement
-		if g.calls > 0 && g.noCalls == 0 && g.inLoop <= 1 {
+		if g.calls > 0 && g.noCalls == 0 && g.inLoop <= 1 && !g.stRisky {
 			var cs []int
 			for j := g.cur + 1; j < len(g.sigs); j++ {
 				if !(g.sigs[g.cur].rec && g.sigs[j].rec) {
@@ -581,6 +594,7 @@ func (g *gen) stmt(d int) []*Stmt {
 }
 
 func (g *gen) print() *Stmt {
+	g.stCall, g.stRisky = false, false
 	s := &Stmt{Kind: "print"}
 	n := 1 + g.r.Intn(3)
 	for i := 0; i < n; i++ {
@@ -590,6 +604,7 @@ func (g *gen) print() *Stmt {
 }
 
 func (g *gen) ret() *Stmt {
+	g.stCall, g.stRisky = false, false
 	if g.sigs[g.cur].result == tNone {
 		return &Stmt{Kind: "ret0"}
 	}
@@ -683,6 +698,7 @@ func (g *gen) function(k int) *Func {
 	}
 	if s.rec {
 		// exactly one self call, on n-1
+		g.stCall, g.stRisky = true, false
 		call := &Expr{Kind: "call", Ty: s.result, X: k}
 		g.noCalls++
 		g.linear++
